@@ -364,11 +364,28 @@ func (w *World) nilStatus(fn *ssa.Function, i int, seen map[string]bool) int {
 			status = s
 		}
 	}
-	errDefinitelySet := func(errVal ssa.Value, r ssa.Instruction) bool {
+	var errDefinitelySet func(errVal ssa.Value, r ssa.Instruction) bool
+	errDepth := 0
+	errDefinitelySet = func(errVal ssa.Value, r ssa.Instruction) bool {
 		if errVal == nil {
 			return false
 		}
 		whole := strip(errVal)
+		// an error joined from several failure exits (the merged tail of a helper): each edge on its own
+		if ph, isPhi := whole.(*ssa.Phi); isPhi && errDepth < 3 && ph.Block().Dominates(r.Block()) {
+			errDepth++
+			all := true
+			for k, e := range ph.Edges {
+				pred := ph.Block().Preds[k]
+				if !errDefinitelySet(e, pred.Instrs[len(pred.Instrs)-1]) {
+					all = false
+				}
+			}
+			errDepth--
+			if all {
+				return true
+			}
+		}
 		if w.requires(fn, r, func(a Atom) bool { return a.Kind == "nil" && strip(a.X) == whole }, false) {
 			return true // the returned error value itself was tested non-nil on the way here
 		}
